@@ -60,7 +60,8 @@ ASSUME = [
 def check_C11(tier, seed):
     out = Outcome("C11", tier, seed)
     if tier == "quick":
-        models = [tab_model("import", 3, 0, ALL_STYLES), tab_model("export", 3, 0, ALL_STYLES), tab_model("import", 1, 2, {1, 2, 8})]
+        models = [tab_model("import", 3, 0, ALL_STYLES), tab_model("export", 3, 0, ALL_STYLES), tab_model("import", 1, 2, {1, 2, 8}),
+                  tab_model("import", 2, 1, {1, 2})]
     else:
         models = [tab_model("import", 4, 0, ALL_STYLES, 4), tab_model("export", 4, 0, ALL_STYLES, 4), tab_model("import", 2, 1, ALL_STYLES)]
     run_tables(out, "C11", models)
